@@ -1,0 +1,6 @@
+//go:build verif
+
+package kernel
+
+// VerifStop ends the topology statistics goroutine started by getTopologyCounter / SetupNode.
+func (node *Node) VerifStop() { close(node.done) }
